@@ -218,6 +218,25 @@ def family_of(op):
     return None
 
 
+def revisit_key(op):
+    """Operations that address the same cache entry / the same computation, whatever their
+    cache-control flags: used to come back to the arguments of an earlier step."""
+    n = op["op"]
+    if n in ("gdf", "polyc", "linec"):
+        return (n, op.get("pe"), op.get("proj"), op.get("engine"))
+    if n == "tree":
+        return (n, op.get("type"), op.get("csys"), op.get("metric"))
+    if n in ("areas", "total_area"):
+        return ("areas", op.get("rule"), op.get("order"))
+    if n in ("isel", "isel_attr"):
+        return ("isel", op.get("dim"), tuple(op.get("idx") or ()))
+    return None
+
+
+def same_key_ops(menus_sid, key):
+    return [o for lst in menus_sid.values() for o in lst if revisit_key(o) == key]
+
+
 def family_ops(menus_sid, fam):
     out = []
     for cls, lst in menus_sid.items():
@@ -274,7 +293,11 @@ class History(Profile):
             cls = rng.choices(classes, weights=[CLASS_WEIGHT[c] for c in classes])[0]
             prev = next((o for o in reversed(ops) if o.get("g") == h), None)
             fam = family_of(prev) if prev else None
-            if fam and rng.random() < 0.3:
+            keyed = [revisit_key(o) for o in ops if o.get("g") == h and revisit_key(o) is not None]
+            if keyed and rng.random() < 0.2:
+                # the same request as an earlier step of this grid (maybe with other cache flags)
+                op = dict(rng.choice(same_key_ops(menus[sid], rng.choice(keyed))))
+            elif fam and rng.random() < 0.3:
                 op = dict(rng.choice(family_ops(menus[sid], fam)))
             elif cls == "eq":
                 op = {"op": "eq", "other": handles[rng.randrange(n_grids)]}
